@@ -1078,4 +1078,165 @@ theorem segOfB_unique {pts : List (PRC α)} (hs : Sorted pts) {i : Nat} {x : α}
     unfold segOfB; omega
   · unfold segOfB; omega
 
+/-! ### `PathTpc::extend` really has the shape assumed by `segOf_extend` / `E_extend` / `StrapInv_extend`
+
+`Extends pts pts'`: `pts'` is `pts` with its last point rewritten (offset kept) followed by new points.
+`extend` (initial-elevation fix-up, `pushGrades`, `pushCurves`, the no-elevation / no-heading
+branches, folded over the link path) satisfies it for `grades` and for `curves`. -/
+
+theorem setLast_eq' {β : Type} (l : List β) (f : β → β) (hne : l ≠ []) :
+    setLast l f = l.dropLast ++ [f (l.getLast hne)] := by
+  unfold setLast
+  have h := List.dropLast_append_getLast hne
+  generalize l.dropLast = d at h ⊢
+  generalize l.getLast hne = a at h ⊢
+  subst h
+  simp
+
+theorem setLast_nil {β : Type} (f : β → β) : setLast ([] : List β) f = [] := rfl
+
+theorem setLast_append {β : Type} (a l : List β) (f : β → β) (hne : l ≠ []) :
+    setLast (a ++ l) f = a ++ setLast l f := by
+  rw [setLast_eq' (a ++ l) f (by simp [hne]), setLast_eq' l f hne,
+    List.dropLast_append_of_ne_nil hne]
+  simp [List.getLast_append_right hne]
+
+theorem setLast_setLast {β : Type} (l : List β) (f f' : β → β) :
+    setLast (setLast l f) f' = setLast l (f' ∘ f) := by
+  by_cases hne : l = []
+  · subst hne; rfl
+  · rw [setLast_eq' l f hne, setLast_append _ _ _ (by simp), setLast_eq' l _ hne]
+    simp [setLast]
+
+/-- `pts'` arises from `pts` by rewriting the last point (keeping its offset) and appending -/
+def Extends (pts pts' : List (PRC α)) : Prop :=
+  ∃ (f : PRC α → PRC α) (more : List (PRC α)), (∀ p, (f p).off = p.off) ∧ pts' = setLast pts f ++ more
+
+theorem setLast_id {β : Type} (l : List β) : setLast l id = l := by
+  by_cases hne : l = []
+  · subst hne; rfl
+  · rw [setLast_eq' l id hne]; simp [List.dropLast_append_getLast hne]
+
+theorem Extends.append (pts more : List (PRC α)) : Extends pts (pts ++ more) :=
+  ⟨id, more, fun _ => rfl, by rw [setLast_id]⟩
+
+theorem Extends.of_setLast (pts : List (PRC α)) (f : PRC α → PRC α) (hf : ∀ p, (f p).off = p.off) :
+    Extends pts (setLast pts f) :=
+  ⟨f, [], hf, (List.append_nil _).symm⟩
+
+theorem Extends.refl (pts : List (PRC α)) : Extends pts pts := by
+  simpa using Extends.append pts []
+
+theorem Extends.trans {a b c : List (PRC α)} (h1 : Extends a b) (h2 : Extends b c) : Extends a c := by
+  obtain ⟨f, more, hf, rfl⟩ := h1
+  obtain ⟨f', more', hf', rfl⟩ := h2
+  by_cases hm : more = []
+  · subst hm
+    refine ⟨f' ∘ f, more', fun p => by simp [hf', hf], ?_⟩
+    rw [List.append_nil, setLast_setLast]
+  · refine ⟨f, setLast more f' ++ more', hf, ?_⟩
+    rw [setLast_append _ _ _ hm, List.append_assoc]
+
+theorem pushGrades_extends (grades : List (PRC α)) (base resNet : α) (elevs : List (Elev α)) :
+    Extends grades (pushGrades grades base resNet elevs).1 := by
+  fun_induction pushGrades grades base resNet elevs with
+  | case1 grades resNet p c t grade net grades' ih =>
+    refine Extends.trans ⟨fun g => { g with coeff := grade }, [⟨base + c.off, 0, net⟩], fun _ => rfl, rfl⟩ ih
+  | case2 grades resNet l h => exact Extends.refl _
+
+theorem pushCurves_extends (g : GeoConsts α) (par : TrainPar α) (curves : List (PRC α)) (base resNet : α)
+    (hs : List (Heading α)) :
+    Extends curves (pushCurves g par curves base resNet hs).1 := by
+  fun_induction pushCurves g par curves base resNet hs with
+  | case1 curves resNet p c t len coeff net curves' ih =>
+    refine Extends.trans ⟨fun x => { x with coeff := coeff }, [⟨base + c.off, 0, net⟩], fun _ => rfl, rfl⟩ ih
+  | case2 curves resNet l h => exact Extends.refl _
+
+theorem extendGeometry_extends {g : GeoConsts α} {net : List (Link α)} {t t' : Tpc α} {idx : Nat}
+    (h : extendGeometry g net t idx = .ok t') :
+    Extends t.grades t'.grades ∧ Extends t.curves t'.curves := by
+  unfold extendGeometry at h
+  simp only [bind, Res.bind, pure] at h
+  split at h
+  next link hlink =>
+    split at h
+    next lastG hG =>
+      split at h
+      next lastC hC =>
+        injection h with h
+        subst h
+        constructor
+        · show Extends t.grades (if _ then _ else _)
+          split_ifs
+          · exact Extends.append _ _
+          · exact pushGrades_extends _ _ _ _
+        · show Extends t.curves (if _ then _ else _)
+          split_ifs
+          · exact Extends.append _ _
+          · exact pushCurves_extends _ _ _ _ _ _
+      all_goals cases h
+    all_goals cases h
+  all_goals cases h
+theorem foldR_invariant {σ β : Type} {f : σ → β → Res σ} (R : σ → σ → Prop)
+    (hrefl : ∀ s, R s s) (htrans : ∀ a b c, R a b → R b c → R a c)
+    (hstep : ∀ s x s', f s x = .ok s' → R s s') :
+    ∀ (l : List β) (s s' : σ), foldR f s l = .ok s' → R s s' := by
+  intro l
+  induction l with
+  | nil => intro s s' h; simp only [foldR] at h; injection h with h; subst h; exact hrefl s
+  | cons x xs ih =>
+    intro s s' h
+    simp only [foldR, bind, Res.bind] at h
+    split at h
+    next s1 h1 => exact htrans _ _ _ (hstep s x s1 h1) (ih s1 s' h)
+    all_goals cases h
+
+theorem extendLinkPoint_geometry {toU32 : α → Nat} {net : List (Link α)} {t t' : Tpc α} {idx : Nat}
+    (h : extendLinkPoint toU32 net t idx = .ok t') : t'.grades = t.grades ∧ t'.curves = t.curves := by
+  unfold extendLinkPoint at h
+  simp only [bind, Res.bind, pure] at h
+  repeat' (split at h)
+  all_goals first
+    | cases h; done
+    | (injection h with h; subst h; exact ⟨rfl, rfl⟩)
+
+theorem extend_extends {toU32 : α → Nat} {g : GeoConsts α} {net : List (Link α)} {t t' : Tpc α}
+    {path : List Nat} (h : extend toU32 g net t path = .ok t') :
+    Extends t.grades t'.grades ∧ Extends t.curves t'.curves := by
+  unfold extend at h
+  simp only [bind, Res.bind, pure] at h
+  split at h
+  rotate_left; cases h; cases h
+  split at h
+  rotate_left; cases h; cases h
+  split at h
+  rotate_left; cases h; cases h
+  split at h
+  rotate_left; cases h; cases h
+  split at h
+  rotate_left; cases h; cases h
+  next t1 h1 =>
+  have hinit : Extends t.grades t1.grades ∧ t1.curves = t.curves := by
+    repeat' (split at h1)
+    all_goals first
+      | cases h1; done
+      | (injection h1 with h1; subst h1; exact ⟨Extends.refl _, rfl⟩)
+      | (injection h1 with h1; subst h1
+         exact ⟨Extends.of_setLast _ _ (fun _ => rfl), rfl⟩)
+  split at h
+  rotate_left; cases h; cases h
+  next t2 h2 =>
+  have hlp : t2.grades = t1.grades ∧ t2.curves = t1.curves :=
+    foldR_invariant (fun a b : Tpc α => b.grades = a.grades ∧ b.curves = a.curves)
+      (fun _ => ⟨rfl, rfl⟩) (fun a b c h1 h2 => ⟨h2.1.trans h1.1, h2.2.trans h1.2⟩)
+      (fun s x s' hs => extendLinkPoint_geometry hs) path t1 t2 h2
+  have hgeo : Extends t2.grades t'.grades ∧ Extends t2.curves t'.curves :=
+    foldR_invariant (fun a b : Tpc α => Extends a.grades b.grades ∧ Extends a.curves b.curves)
+      (fun _ => ⟨Extends.refl _, Extends.refl _⟩)
+      (fun a b c h1 h2 => ⟨h1.1.trans h2.1, h1.2.trans h2.2⟩)
+      (fun s x s' hs => extendGeometry_extends hs) path t2 t' h
+  rw [hlp.1, hlp.2] at hgeo
+  rw [hinit.2] at hgeo
+  exact ⟨hinit.1.trans hgeo.1, hgeo.2⟩
+
 end Altrios.Proofs.ResistL
